@@ -58,7 +58,8 @@ def required_cells(tier):
             "dotted-directory", "crlf-file", "non-utf8-file", "sloc>=1000",
             "report-selection:-R", "report-selection:--report", "report-selection:default-all", "report-selection:-R-all",
             "exclude:analysis-file-plus-command-line", "hard-link", "cov:-S-through-symlink", "file>1MiB", "analysis-file:no-platform-table",
-            "analysis-file:empty-platform-table", "directory-name-starting-with-dot", "link-target-through-directory-link-and-dotdot"]
+            "analysis-file:empty-platform-table", "directory-name-starting-with-dot", "link-target-through-directory-link-and-dotdot",
+            "cov:all-platforms-in-one-database", "unused-byte-identical-copy-of-a-compiled-file"]
 
 
 def close2(printed, exact):
@@ -97,6 +98,14 @@ def gen_case(rng):
         extra["vendor/pkg/p.h"] = "int p;\n"
         links["build/cur"] = "../vendor/pkg"
         links["build/u.c"] = "cur/../util.c"
+    if case["tus"] and len(case["files"]) % 2 == 1:
+        # the first command's file is compiled once more, by the LAST platform, with the same definitions but the search
+        # directories in the opposite order (another command, possibly other headers); and a byte-identical copy of that
+        # file, which nothing compiles, sits elsewhere in the code base
+        tu0 = case["tus"][0]
+        plats_ = sorted({t["platform"] for t in case["tus"]})
+        case["tus"].append(dict(tu0, platform=plats_[-1], search=list(reversed(tu0["search"]))))
+        case["twin_of"] = tu0["file"]
     case["extra"] = extra
     case["links"] = links
     # a second directory entry (hard link) for an unused file: two names, two files of the code base
@@ -114,6 +123,9 @@ def materialize(case, base):
             f.write(text)
     with open(os.path.join(out, "far.h"), "w") as f:
         f.write("int far;\n")
+    if case.get("twin_of") and not case["twin_of"].startswith("@out/"):
+        os.makedirs(os.path.join(root, "extra", "copies"), exist_ok=True)
+        shutil.copyfile(os.path.join(root, case["twin_of"]), os.path.join(root, "extra", "copies", "unused_twin" + os.path.splitext(case["twin_of"])[1]))
     for l, t in case["links"].items():
         p = os.path.join(root, l)
         os.makedirs(os.path.dirname(p), exist_ok=True)
@@ -410,6 +422,32 @@ def check_case(ctx, case, base, cls, do_clustering=False):
                         len(e["used_lines"]) + len(e["unused_lines"]) != len(set(e["used_lines"]) | set(e["unused_lines"])):
                     problems.append({"kind": "coverage.json lines", "platform": p, "file": e["file"], "expected_used": used[:12],
                                      "observed_used": sorted(e["used_lines"])[:12], "expected_unused": unused[:12], "observed_unused": sorted(e["unused_lines"])[:12]})
+        # (4b) one coverage export over ALL commands of all platforms in one database: used = used by any of them
+        if dbs and len(plats_conf) >= 2:
+            merged = []
+            for dbn in dbs:
+                merged += json.load(open(os.path.join(base, "dbs", dbn)))
+            mdb = os.path.join(base, "merged-db.json")
+            with open(mdb, "w") as f:
+                json.dump(merged, f)
+            covp = os.path.join(base, "cov-merged.json")
+            rc, out, err = cli.run("cbi-cov", ["compute", "-S", realroot, "-o", covp] + [a for x in cli_ex + toml_ex for a in ("-x", x)] + [mdb], realroot)
+            acc.hook("cli-runs")
+            if rc != 0:
+                problems.append({"kind": "cbi-cov failed on the merged database", "stderr": err[-300:]})
+            else:
+                cells.add("cov:all-platforms-in-one-database")
+                for e in json.load(open(covp)):
+                    fn = os.path.join(realroot, e["file"])
+                    if fn not in fsm:
+                        continue
+                    lines = fsm[fn][2]
+                    used = sorted(ln for ln, ps in lines.items() if ps)
+                    if sorted(e["used_lines"]) != used:
+                        problems.append({"kind": "coverage.json of the merged database: used lines are not the union over the platforms", "file": e["file"],
+                                         "expected_used": used[:12], "observed_used": sorted(e["used_lines"])[:12]})
+        if case.get("twin_of") and any(os.path.relpath(fn, realroot).startswith("extra/copies/unused_twin") for fn in fsm):
+            cells.add("unused-byte-identical-copy-of-a-compiled-file")
         # clustering (distance matrix) on a sample
         if do_clustering and len(used_plats) >= 2 and not problems:
             rc, out, err = cli.run("codebasin", xargs + ["-R", "clustering", toml], realroot, timeout=600)
